@@ -523,11 +523,18 @@ func (w *OggWriter) Close() error {
 	}()
 
 	if w.fd == nil {
-		if closer, ok := w.stream.(io.Closer); ok {
-			return closer.Close()
+		if w.stream == nil {
+			return nil
 		}
 
-		return nil
+		// The output cannot be rewritten, so the stream is finished with an
+		// empty end-of-stream page, as Writer.Close does.
+		closeErr := writeNilEndOfStreamPage(w.stream, w.checksumTable, w.track)
+		if closer, ok := w.stream.(io.Closer); ok {
+			return errors.Join(closeErr, closer.Close())
+		}
+
+		return closeErr
 	}
 
 	closeErr := markTrackEndOfStream(w.fd, w.checksumTable, w.track)
